@@ -254,7 +254,7 @@ class C09(Check):
             "x {eof, select error, disconnect(), send error} x {alone, beside a live connection of the same datapath} x 2 batchings, every interleaving of the 4 handshake "
             "messages (both finishing variants) with <= 2 insertions of {port_status, echo_request, packet_in, error(other xid), error(other code)}, all 24 orders of the 4 "
             "handshake messages with <= 1 insertion, every connect/up/lose order of 2 connections; generated = sampled 3-insertion interleavings and 3-connection orders "
-            "(exhaustive in the thorough tier) + seeded random histories (30% with neighbouring reads / EOFs / accepts merged into ONE select round); + all 70 interleavings of two connections' handshakes (x same/different datapath x both finishing variants), 22 hand-written multi-event select rounds (error list + readable list, both orders, accept next to data, the new connection's barrier reply next to the stale one's EOF), the API called positionally / by keyword / with a message object, and the hand-written + sampled interleaved / round histories again behind a prelude that burns 260 xids (every xid above 256); + ~690 of the hand-written / loss-point / 2-connection histories re-run with re-entrant application listeners (7 listener behaviours; compared with the listener model runL); + the error sweep: at each of the 3 positions between hello and the barrier answer an ERROR of every (type, code) (3x3 in the quick corpus, 6x9 in the thorough tier) with xid in {0, the barrier's, the features request's, barrier+-1, 2^31-1, 2^32-1}, and every other kind of message (echo request / reply, packet-in, port status, desc stats reply, hello, barrier replies with those xids), followed by the real barrier reply; non-trivial = at least one message was dispatched")
+            "(exhaustive in the thorough tier) + seeded random histories (30% with neighbouring reads / EOFs / accepts merged into ONE select round); + all 70 interleavings of two connections' handshakes (x same/different datapath x both finishing variants), 22 hand-written multi-event select rounds (error list + readable list, both orders, accept next to data, the new connection's barrier reply next to the stale one's EOF), the API called positionally / by keyword / with a message object, and the hand-written + sampled interleaved / round histories again behind a prelude that burns 260 xids (every xid above 256); + ~690 of the hand-written / loss-point / 2-connection histories re-run with re-entrant application listeners (7 listener behaviours; compared with the listener model runL); + the error sweep: at each of the 3 positions between hello and the barrier answer an ERROR of every (type, code) (3x3 in the quick corpus, 6x9 in the thorough tier) with xid in {0, the barrier's, the features request's, barrier+-1, 2^31-1, 2^32-1}, and every other kind of message (echo request / reply, packet-in, port status, desc stats reply, hello, barrier replies with those xids), followed by the real barrier reply; loss kinds now include an exception leaving read() (a message of a type nothing can unpack); + ~700 hand-written / interleaved histories run with NO nexus-level listener for some event kinds (raiseEvent returns None) or with a nexus listener that halts them; non-trivial = at least one message was dispatched")
 
     def setup(self):
         self.core = poxenv.boot()
